@@ -111,7 +111,9 @@ def nfkc_unstable(key):
 def class_forms(key):
     """(name before sanitising, sanitised forms) of the class derived from a key holding an object"""
     raw = inflection.camelize(inflection.singularize(inflection.underscore(key)))
-    clean = {re.sub(r"\W", "", unidecode(raw)).lower(), re.sub(r"\W", "", raw).lower()}
+    def cap(x):
+        return x[:1].upper() + x[1:]
+    clean = {cap(re.sub(r"\W", "", unidecode(raw))), cap(re.sub(r"\W", "", raw))}
     return raw, clean
 
 
@@ -418,7 +420,14 @@ def literal_boundary_samples(draw, universe, strs=None):
     pool = draw(st.permutations(LITERAL_17))[:n]
     if draw(st.integers(0, 3)) == 0:
         pool = pool[:3] + [draw(st.sampled_from(LONG_STRS))]
-    mode = draw(st.sampled_from(["scalar", "list", "list2"]))
+    mode = draw(st.sampled_from(["scalar", "list", "list2", "overlap"]))
+    if mode == "overlap":
+        # overlapping literal sets whose sizes add up to more than 15 although at most 15 distinct strings occur
+        base = draw(st.permutations(LITERAL_17))[:draw(st.integers(9, 14))]
+        a = base[:draw(st.integers(6, len(base)))]
+        b = base[draw(st.integers(0, 4)):]
+        c = [base[0]] * draw(st.integers(0, 3))
+        return [{k: a}, {k: b + c}] if draw(st.booleans()) else [{k: {"n_1": a, "n_2": b}}]
     if mode == "scalar":
         return [{k: s} for s in pool]
     if mode == "list":
@@ -446,6 +455,27 @@ def comma_collision_samples(draw, universe, strs=None):
     return variants
 
 
+FOLD_PAIRS = [("e-mail", "email"), ("user_id", "userId"), ("item-code", "itemCode"), ("x_y", "xY"), ("Http_Url", "httpUrl"),
+              ("first.name", "first_name")]
+
+
+@st.composite
+def fold_pair_samples(draw, universe, strs=None):
+    """two keys that are equal after case/punctuation folding, in *different* objects (legitimate: only keys of one object
+    must be fold-distinct), each holding an object of its own shape so that the two models are not merged"""
+    a, b = draw(st.sampled_from([p for p in FOLD_PAIRS if not class_name_collision(list(p))]))
+    if draw(st.booleans()):
+        a, b = b, a
+    ks = list(draw(st.permutations(universe)))
+    h1, h2 = (ks + ks)[0], (ks + ks)[1]
+    if h1 == h2:
+        h2 = h1 + "_2"
+    leaf = scalars(strs)
+    o1 = {"pa_1": draw(leaf), "pa_2": 1, "pa_3": "x"}
+    o2 = {"qb_1": draw(leaf), "qb_2": [1], "qb_3": None, "qb_4": 2.5}
+    return [{h1: {a: o1, "m1": 1}, h2: {b: o2, "m2": "t", "m3": 2}}]
+
+
 def sample_lists(universe, strs=None, max_samples=5, max_leaves=10, weights=None):
     """G-JSON: the mix of generic and boosted shapes for one key universe."""
     parts = [
@@ -460,6 +490,7 @@ def sample_lists(universe, strs=None, max_samples=5, max_leaves=10, weights=None
         dictlike_samples(universe, strs),
         literal_boundary_samples(universe, strs),
         comma_collision_samples(universe, strs),
+        fold_pair_samples(universe, strs),
     ]
     return st.one_of(*parts)
 
